@@ -52,6 +52,8 @@ def gen():
             raise F.FactError("%s: replacement of path[begin..end] not recognised" % fn)
         if not re.search(r"path\[begin\]\.begin\(\)\s*as\s+u16,\s*path\[end\s*-\s*1\]\.end\(\)\s*as\s+u16", b):
             raise F.FactError("%s: range of the new node not recognised" % fn)
+        if not re.search(r"path\[end\s*-\s*1\]\.total_cost,\s*path\[begin\]\.begin_bytes,\s*path\[end\s*-\s*1\]\.end_bytes,", b):
+            raise F.FactError("%s: byte range of the new node is no longer begin_bytes of the first .. end_bytes of the last" % fn)
     if not re.search(r"WordId::INVALID,\s*\)", F.fn_body(nd, "concat_nodes", NODE)):
         raise F.FactError("concat_nodes: new node is no longer given WordId::INVALID")
     if not re.search(r"let\s+pos_id\s*=\s*path\[begin\]\.word_info\(\)\.pos_id\(\);", F.fn_body(nd, "concat_nodes", NODE)):
@@ -85,4 +87,7 @@ def gen():
     out.append("Definition num_merge_above : N := %s.\n" % F.coq_int(int(ms[0])))
     if not re.search(r"if\s+word_info\.pos_id\(\)\s*!=\s*self\.numeric_pos_id\s*\{\s*return\s+Ok\(path\);", c):
         raise F.FactError("JoinNumericPlugin::concat: part-of-speech guard not recognised")
+    # the guard protects BOTH branches: it has to come before the enable_normalize test
+    if not re.search(r"^\s*let\s+word_info\s*=\s*path\[begin\]\.word_info\(\);\s*if\s+word_info\.pos_id\(\)\s*!=\s*self\.numeric_pos_id\s*\{\s*return\s+Ok\(path\);\s*\}\s*if\s+self\.enable_normalize\s*\{", c):
+        raise F.FactError("JoinNumericPlugin::concat: the part-of-speech guard no longer precedes the enable_normalize branch")
     return "".join(out)
